@@ -345,6 +345,12 @@ K("tds.generation", ["C11"], TDS, "tds.rs", "generation_contract", "K-full",
   mutant=dict(file=TDS, old="        self.generation.fetch_add(1, Ordering::Relaxed);", new="        self.generation.fetch_add(0, Ordering::Relaxed);",
               desc="bump_generation no longer changes the counter"))
 
+K("tds.clone_shares_generation", ["C11"], TDS, "tds.rs", "clone_shares_generation_contract", "K-full",
+  [dict(file=TDS, name="<Tds as Clone>::clone (derived)", anchor=r"pub struct Tds<T, U, V, const D: usize>"), fn(TDS, "bump_generation"), fn(TDS, "generation", anchor=r"pub fn generation\(&self\) -> u64")],
+  timeout=900, obligations=["clone-reads-same", "clone-shares-counter", "rollback-keeps-bumps"],
+  assumed=["empty Tds (the counter is independent of the stored cells); the snapshot restore is modelled by mem::replace (what `self.tds = tds_snapshot` does, minus dropping the old value)"],
+  claim="a Tds snapshot (clone) shares the generation counter: bumps made by a failed operation survive the rollback `tds = snapshot`, so views created before it report staleness, for every counter value")
+
 # ======================================================================================
 # C03 / C08 : three-attempt repair protocol (K-callee)
 # ======================================================================================
@@ -520,6 +526,18 @@ K("dedup.quantized_fallback", ["C17"], DT, "dt_order.rs", "quantized_fallback_co
   assumed=["quantize_coords (stub): returns None; dedup_vertices_epsilon_n2 (stub): identity, records its input (proved greedy by dedup.n* for the public twins)"],
   obligations=["fallback-complete", "fallback-result"],
   claim="dedup_vertices_epsilon_quantized: when coordinates cannot be bucketed, the O(n^2) path receives the complete input in order (no vertex lost)")
+
+for _nm, _fnn, _har, _old in (("exact", "dedup_vertices_exact_hash_grid", "exact_hash_grid_fallback_contract", "    if !hash_grid_usable_for_vertices(grid, &vertices) {\n        return dedup_vertices_exact_sorted(vertices);"),
+                              ("epsilon", "dedup_vertices_epsilon_hash_grid", "epsilon_hash_grid_fallback_contract", "    if !hash_grid_usable_for_vertices(grid, &vertices) {\n        return dedup_vertices_epsilon_quantized(vertices, epsilon);")):
+    K("dedup.grid_fallback." + _nm, ["C17", "C09"], DT, "dt_dedup_grid.rs", _har, "K-callee",
+      [fn(DT, _fnn), fn(DT, "hash_grid_usable_for_vertices")], timeout=1200, no_playback=True,
+      bounded="2 input vertices (every pair of finite first coordinates; cell size 1.0 or an unusable grid)",
+      assumed=["HashGridIndex::insert_vertex / clear (stubs): recorded only (keyability and the candidate query are the grid's real code, on a grid whose cells stay empty); "
+               "dedup_vertices_exact_sorted / dedup_vertices_epsilon_quantized (stubs): identity, recorded; record_duplicate_detection_metrics stubbed"],
+      obligations=["fallback-when-unkeyable", "grid-untouched", "fallback-result", "grid-when-keyable"],
+      claim=_fnn + ": if the grid cannot key EVERY input vertex, the grid-free fallback decides and no vertex is run through the grid "
+            "(an unkeyable vertex switches the grid off, after which every later vertex would be kept unchecked)",
+      mutant=dict(file=DT, old=_old, new=_old.replace("!hash_grid_usable_for_vertices(grid, &vertices)", "!grid.is_usable()"), desc="usability pre-scan of the input dropped (only the grid's own flag is asked)"))
 
 # ======================================================================================
 # C11 : convex hull staleness protocol (K-callee, one query per harness)
@@ -725,6 +743,27 @@ K("tri.orientation_decision", ["C05"], TRI, "tri_slices.rs", "orientation_decisi
               new="            if orientation == i32::MIN {\n                return Err(TdsValidationError::InconsistentDataStructure {\n                    message: format!(\n                        \"Cell {:?} (key {cell_key:?}) has degenerate geometric orientation\",",
               desc="flat cells (orientation == 0) no longer rejected"))
 
+_PER_FN = r"fn build_periodic<K, V, M>\("
+_SL_PERT = dict(file=BUILDER, fn_anchor=_PER_FN, name="verif_slice_perturb_units", params="canon_idx: usize, axis: usize", ret="i64",
+                stmts=[r"let perturb_units = \|canon_idx: usize, axis: usize\| -> i64 \{.*?\n        \};"], result="perturb_units(canon_idx, axis)")
+_SL_SNAP = dict(file=BUILDER, fn_anchor=_PER_FN, name="verif_slice_periodic_snap",
+                params="domain: [f64; D], orig_coords: &[T; D], canon_idx: usize, perturb_units: &dyn Fn(usize, usize) -> i64", ret="[f64; D]",
+                stmts=[r"let mut coords = \[0_f64; D\];", dict(block=r"for i in 0\.\.D \{\s*let domain_i = domain\[i\];")], result="coords")
+K("builder.perturb_range", ["C16", "C19"], BUILDER, "builder_periodic.rs", "perturb_units_range_contract", "K-slice",
+  [dict(file=BUILDER, name="DelaunayTriangulationBuilder::build_periodic (K-slice: the perturb_units closure)", anchor=_PER_FN)],
+  slices=[_SL_PERT, _SL_SNAP], timeout=900, obligations=["constant", "perturbation-range"],
+  assumed=["K-slice: the `let perturb_units = |..| {..};` statement of build_periodic, verbatim, called with any (index, axis); everything else in build_periodic dropped"],
+  claim="the per-(vertex, axis) hash perturbation of periodic construction is within +-MAX_OFFSET_UNITS grid units for EVERY index and axis (no `expect` fires)",
+  mutant=dict(file=BUILDER, old="            i64::try_from(h % span).expect(\"residue fits in i64\") - MAX_OFFSET_UNITS\n        };", new="            i64::try_from(h % span).expect(\"residue fits in i64\") - MAX_OFFSET_UNITS + 1\n        };",
+              desc="perturbation range shifted by one unit"))
+K("builder.periodic_snap", ["C16", "C19"], BUILDER, "builder_periodic.rs", "periodic_snap_contract", "K-slice",
+  [dict(file=BUILDER, name="DelaunayTriangulationBuilder::build_periodic (K-slice: per-axis grid snap + clamped perturbation)", anchor=_PER_FN)],
+  slices=[_SL_PERT, _SL_SNAP], timeout=1500, obligations=["snapped-nonnegative", "snapped-below-period"],
+  assumed=["K-slice: `let mut coords = ..;` and the `for i in 0..D { .. }` statement of the canonical_f64 closure of build_periodic, verbatim, for D = 1 (axes are independent); "
+           "perturb_units passed as ANY function with values in +-MAX_OFFSET_UNITS (proved by builder.perturb_range); preconditions: L normal and > 0, 0 <= x < L (Phase 1 canonicalisation, units builder.canonicalize_* / toroidal.*); "
+           "everything else in build_periodic (image expansion, the Delaunay build, the quotient) dropped"],
+  claim="periodic (image-point) construction: the snapped and perturbed canonical coordinate of every vertex stays in the half-open period [0, L) for every L, x and perturbation; none of the `expect`s fires",
+  mutant=dict(file=BUILDER, old="let max_off = (TWO_POW_52_I64 - 1 - u).min(MAX_OFFSET_UNITS);", new="let max_off = (TWO_POW_52_I64 - u).min(MAX_OFFSET_UNITS);", desc="upper clamp of the perturbation off by one (stored coordinate can be exactly L)"))
 K("builder.canonicalize_one", ["C16"], BUILDER, "builder.rs", "canonicalize_one_vertex_contract", "K-callee",
   [fn(BUILDER, "canonicalize_vertices")], tier="thorough", timeout=3600, no_playback=True,
   assumed=["GlobalTopologyModel::canonicalize_point_in_place replaced by an arbitrary model with an arbitrary periodic domain (rewrites or refuses); format! stubbed"],
@@ -872,6 +911,22 @@ K("tri.fan_tail", ["C06", "C03"], TRI, "tri_fan.rs", "fan_tail_contract", "K-sli
   claim="Triangulation::remove_vertex, fan path: success <=> facet-issue detection, orientation normalisation, sign canonicalisation, GLOBAL geometric-orientation validation, incidence rebuild and vertex removal all succeed; any failure => Err (snapshot restored by the caller of the closure)",
   mutant=dict(file=TRI, old="            self.validate_geometric_cell_orientation().map_err(|e| {\n                TdsValidationError::InconsistentDataStructure {\n                    message: format!(\n                        \"Geometric orientation validation failed after fan retriangulation: {e}\",\n                    ),\n                }\n            })?;\n",
               new="", desc="geometric-orientation validation after fan retriangulation dropped"))
+
+_SL_FANR = dict(file=TRI, fn_anchor=_SL_FAN["fn_anchor"], name="verif_slice_fan_restore", params="&mut self", ret="Result<usize, TdsMutationError>",
+                where="where K::Scalar: CoordinateScalar",
+                stmts=[dict(rest_of_fn_after=r"let apex_vertex_key = self\.pick_fan_apex\(",
+                            abstract=[dict(open=r"\(\|\| -> Result<usize, TdsMutationError> \{", body="self::verif_kani_tri_restore::region(&mut self.tds)")])],
+                result="")
+K("tri.fan_restore", ["C03", "C06"], TRI, "tri_restore.rs", "fan_restore_contract", "K-slice",
+  [dict(file=TRI, name="Triangulation::remove_vertex (K-slice: rollback protocol around the retriangulation closure)", anchor=_SL_FAN["fn_anchor"])],
+  slices=[_SL_FANR], timeout=1800,
+  assumed=["K-slice: everything in Triangulation::remove_vertex after `let apex_vertex_key = ..?;`, verbatim, EXCEPT the body of the retriangulation closure, which is abstracted to "
+           "`region(&mut self.tds)` = any change of the Tds followed by any outcome (the closure body is storage code; unit tri.fan_tail, manual, holds its own contract); "
+           "the lookups before the snapshot (vertex key, incident cells, cavity boundary, apex) are dropped"],
+  obligations=["ok-count", "err-from-region", "err-restores"],
+  claim="fan path of Triangulation::remove_vertex: whatever the destructive retriangulation did before failing, Err leaves the Tds exactly as it was (snapshot restored); Ok(n) is the retriangulation's result",
+  mutant=dict(file=TRI, old="            Err(error) => {\n                self.tds = tds_snapshot;\n                Err(error)\n            }", new="            Err(error) => {\n                drop(tds_snapshot);\n                Err(error)\n            }",
+              desc="snapshot restore after a failed fan retriangulation deleted"))
 
 K("dt.level4_report", ["C04", "C05"], DT, "dt.rs", "level4_report_contract", "K-callee",
   [fn(DT, "validation_report", anchor=r"pub fn validation_report\(&self\) -> Result<\(\), TriangulationValidationReport>")], tier="thorough", timeout=5400,
